@@ -53,4 +53,21 @@ def held : Verdict → Nat
   | .buffered a b => a + b
   | _ => 0
 
+/-- the two stream buffers a decoding context holds between frames -/
+structure Bufs where
+  inSize : Nat := 0
+  outSize : Nat := 0
+deriving DecidableEq, Repr
+
+/-- zdss_loadHeader, buffered mode: the buffers are re-laid-out when EITHER of them is too small for the frame about to be decoded
+(the 'too large for too long' shrink, after 128 frames, is not modelled) -/
+def nextBufs (cur : Bufs) (needIn needOut : Nat) : Bufs :=
+  if cur.inSize < needIn ∨ cur.outSize < needOut then ⟨needIn, needOut⟩ else cur
+
+/-- buffer sizes after each frame of a sequence decoded through one context; `none` = the frame takes the single-pass shortcut -/
+def bufSeq (cur : Bufs) : List (Option (Nat × Nat)) → List Bufs
+  | [] => []
+  | none :: rest => cur :: bufSeq cur rest
+  | some (a, b) :: rest => nextBufs cur a b :: bufSeq (nextBufs cur a b) rest
+
 end ZstdVerif.DBuf
